@@ -612,6 +612,33 @@ theorem geoMethod_link_lengths (mode : GeoMode) (D : Nat → Nat → Int) (eps :
   obtain ⟨e', h1, h2⟩ := m p e he
   exact ⟨e', h1, by simpa using h2⟩
 
+/-- **model III over a whole run**: the degree pair (with respect to the `degree` array the
+kernel was given) of the link stored at *every position* of the edge array is the same after
+the run as before — the list of degree pairs over all links is literally unchanged. -/
+theorem geoRun_degree_pairs (c : GeoCfg) (hm : c.mode = .III) (iterations : Nat)
+    (draws : List (Nat × Nat)) (st st' : GeoSt) (h : geoRun c iterations draws st = some st')
+    (p : Nat) (e : Nat × Nat) (he : st.edges[p]? = some e) :
+    ∃ e', st'.edges[p]? = some e' ∧
+      (c.degree e'.1, c.degree e'.2) = (c.degree e.1, c.degree e.2) :=
+  geoRun_pairs c hm iterations draws st st' h p e he
+
+/-- **`randomly_rewire_geomodel_III`, whole method**: the link at every position of the edge
+list has, in the rewired network, end points with the same pair of (actual, current) degrees as
+the link at that position of the input network: degree–degree correlations are conserved
+exactly. -/
+theorem geoMethod_degree_pairs (D : Nat → Nat → Int) (eps : Int) (n : Nat)
+    (A : Adj) (iterations : Nat) (draws : List (Nat × Nat)) (st' : GeoSt)
+    (sym : ∀ i j, A i j = A j i) (lf : ∀ i, A i i = false)
+    (supp : ∀ i j, A i j = true → i < n ∧ j < n)
+    (h : geoMethod .III D eps n A iterations draws = some st')
+    (p : Nat) (e : Nat × Nat) (he : (edgeList n A)[p]? = some e) :
+    ∃ e', st'.edges[p]? = some e' ∧
+      (deg st'.A n e'.1, deg st'.A n e'.2) = (deg A n e.1, deg A n e.2) := by
+  have hd := (geoMethod_invariants .III D eps n A iterations draws st' sym lf supp h).2.2.2.1
+  unfold geoMethod at h
+  obtain ⟨e', h1, h2⟩ := geoRun_degree_pairs _ rfl iterations draws _ st' h p e he
+  exact ⟨e', h1, by rw [hd, hd]; exact h2⟩
+
 /-- **`RandomlyRewireCrossLinks`, whole method, every stream of draws, every number of swaps**:
 for a simple undirected network on `N` nodes and duplicate-free disjoint node lists, the
 returned adjacency is simple, equals the input outside the two cross blocks (all links inside
